@@ -454,6 +454,37 @@ func TestVerif_C19race(t *testing.T) {
 			// (virtual-time) half of this check decides whether notify can block
 			t.Fatalf("verif: concurrent run did not finish within 30 s of real time (inconclusive)")
 		}
+		// what the subscribers of the concurrent run were given: only changes inside their mask, only changes that
+		// were notified, never more than the buffer holds (whether a channel is closed depends on whether its
+		// subscription came before the end of the watch, which this run does not fix)
+		for g := range chans {
+			for j, ch := range chans[g] {
+				mask := Change(1 + (i+j+g)%127)
+				got := 0
+			drain:
+				for {
+					select {
+					case ev, ok := <-ch:
+						if !ok {
+							break drain
+						}
+						got++
+						if ev&mask == 0 || (ev != LinkUp && ev != LinkDown && ev != LinkDormant) {
+							if err := k.Judge(part.Name, c, verifkit.Violf("C19/concurrent-wrong-event", "subscriber %d/%d (mask %d) was given change %d", g, j, mask, ev)); err != nil {
+								t.Fatalf("%v", err)
+							}
+						}
+					default:
+						break drain
+					}
+				}
+				if got > 8 {
+					if err := k.Judge(part.Name, c, verifkit.Violf("C19/concurrent-buffer", "subscriber %d/%d holds %d changes, more than the documented buffer of 8", g, j, got)); err != nil {
+						t.Fatalf("%v", err)
+					}
+				}
+			}
+		}
 		part.Done++
 	}
 	part.Complete = true
